@@ -23,6 +23,10 @@ Definition nf_del (n : pystr) (s : nset) : nset := filter (fun x => negb (pystr_
 
 Record ustate := { u_attrs : attrs; u_none : nset }.
 
+(* the field named n is declared immutable=True *)
+Definition field_immutable (c : classdef) (n : pystr) : bool :=
+  match find_field (c_fields c) n with Some fd => fd_immutable fd | None => false end.
+
 Section WithOracle.
   Variable re_match : N -> pystr -> bool.
   Variable e : env.
@@ -63,12 +67,17 @@ Section WithOracle.
         end
     end.
 
-  (* the documented effects of one assignment; u: the class enables the undefined value *)
-  Definition setattr_nf_decision (c : classdef) (u instantiated : bool) (n : pystr) (v : pyval) : res (list nfev) :=
+  (* the documented effects of one assignment; u: the class enables the undefined value; a: the attributes the
+     instance holds (self.__dict__).  Recording an explicit None for a field declared immutable=True that holds a
+     value is an assignment to it like any other: it is refused, before the marker is added *)
+  Definition setattr_nf_decision (c : classdef) (u instantiated : bool) (a : attrs) (n : pystr) (v : pyval)
+    : res (list nfev) :=
     if c_immutable c && instantiated then Raise ValueError
     else if negb (c_additional c || str_in n (field_names c)) then Raise ValueError
     else if (c_ignore_none c || u) && is_none_val v && negb (is_required c n) then
-      Ok (if str_in n (field_names c) && u then [NfAdd] else [])
+      if str_in n (field_names c) && u then
+        if alist_has a n && field_immutable c n then Raise ValueError else Ok [NfAdd]
+      else Ok []
     else
       Ok (NfHandover v true :: (if str_in n (field_names c) && u && negb (is_none_val v) then [NfDiscard] else [])).
 
@@ -81,7 +90,12 @@ Section WithOracle.
 
   (* Structure.__setattr__ on the two-component state *)
   Definition setattr_u (c : classdef) (u instantiated : bool) (st : ustate) (n : pystr) (v : pyval) : ustate * outcome :=
-    run_decision c instantiated st n (setattr_nf_decision c u instantiated n v).
+    run_decision c instantiated st n (setattr_nf_decision c u instantiated (u_attrs st) n v).
+
+  (* the one assignment that is refused by __setattr__ itself, in its 'ignored None' branch: an explicit None
+     for a non-required field declared immutable=True that holds a value, under _enable_undefined_value *)
+  Definition marker_blocked (c : classdef) (u : bool) (a : attrs) (n : pystr) (v : pyval) : bool :=
+    u && is_none_val v && negb (is_required c n) && str_in n (field_names c) && (alist_has a n && field_immutable c n).
 
   Definition is_handover (ev : nfev) : bool := match ev with NfHandover _ _ => true | _ => false end.
   Definition no_handover (evs : list nfev) : bool := negb (existsb is_handover evs).
